@@ -76,6 +76,9 @@ def check(ctx: Ctx):
     ctx.rule("R-VALUE", "VALUE phase: slice on the received assignment, select the arg-optimum, per-child messages from fresh lists")
     ctx.rule("R-OWNERSHIP", "a constraint is kept only at the lowest node of its scope")
     ctx.rule("R-LINKTABLE", "link kinds read by DPOP are the ones the pseudo-tree writes")
+    ctx.rule("R-ACCUM", "containers that collect over a whole loop (all roots of the forest, all children) are created before the loop")
+    from .. import accumrules
+    accumrules.check_accumulators(ctx, "R-ACCUM", ["pydcop.computations_graph.pseudotree", "pydcop.algorithms.dpop"], min_loops=10)
     cls = repo.cls(D, C)
     ctx.touch(cls)
     for mn in (D, REL, PT):
@@ -397,6 +400,7 @@ def _ownership(ctx, repo, cls):
 _D = "pydcop/algorithms/dpop.py"
 _R = "pydcop/dcop/relations.py"
 VARIANTS = [
+    ("pseudotree_nodes_reset_per_root", "pydcop/computations_graph/pseudotree.py", "        links = defaultdict(lambda: [])  # type: Dict[str, List]\n        _nodes = {}\n        for root in self._roots:\n", "        for root in self._roots:\n            links = defaultdict(lambda: [])  # type: Dict[str, List]\n            _nodes = {}\n", "break", "R-ACCUM"),
     ("value_lists_hoisted", _D, "        for c in self._children:\n            variables_msg = [self._variable]\n            values_msg = [selected_value]\n\n            # own_separator", "        variables_msg = [self._variable]\n        values_msg = [selected_value]\n        for c in self._children:\n\n            # own_separator", "break", "R-VALUE"),
     ("projection_default_mode", _D, "        util = projection(self._joined_utils, self._variable, self._mode)", "        util = projection(self._joined_utils, self._variable)", "break", "R-MODE"),
     ("root_finishes_before_value", _D, "                for c in self._children:\n                    msg = DpopMessage(\"VALUE\", ([self._variable], [selected_value]))\n                    self.post_msg(c, msg)\n\n                self.select_value_and_finish(selected_value, float(current_cost))",
